@@ -42,8 +42,12 @@ class WFQ(Scheduler):
         """
         weight_sum = 0.0
         now = self.env.now
-        for i in self.active_set:
-            weight_sum += self.weights[i]
+        # Sum in the order of the weight table, not in set order: with string
+        # class ids the iteration order of a set depends on the hash seed, and
+        # a float sum taken in another order can differ in the last bit.
+        for class_id, weight in self.weights.items():
+            if class_id in self.active_set:
+                weight_sum += weight
         self.vtime += (now - self.last_time) / weight_sum
 
     def reset_vtime(self):
